@@ -648,7 +648,7 @@ class C05(Prop):
             if "dict" in impl:
                 parts_model["dict"] = impl["dict"] == model["dict"]
         if reads is not None:
-            inq = [r.get("past") is None and r["len"] % int(r["dt"][1:]) == 0 for r in case["reads"]]
+            inq = [r["off"] + r["len"] <= len(ibd) and r["len"] % int(r["dt"][1:]) == 0 for r in case["reads"]]
             pairs = list(zip(inq, impl["reads"], model["reads"]))
             parts_model["reads"] = all(i == m for q, i, m in pairs if q)          # arrays inside the file: always
             parts_model["reads-off"] = all(i == m for q, i, m in pairs if not q)  # short / misaligned reads: off-domain
@@ -935,6 +935,12 @@ class C05(Prop):
                 yield {**case, "spectra": sp[:i] + [{**s, "tic": None}] + sp[i + 1:]}
         if case["binw"] is not None:
             yield {**case, "binw": None}
+        rd = case.get("reads") or []
+        if rd:
+            yield {**case, "reads": []}
+            for i in range(len(rd)):
+                if len(rd) > 1:
+                    yield {**case, "reads": rd[:i] + rd[i + 1:]}
         if case["pad"] is not None:
             yield {**case, "pad": None}
         if case["ifirst"]:
